@@ -69,6 +69,15 @@ End TargetInd.
 Lemma sapp_assoc : forall a b c, (a @@ b) @@ c = a @@ (b @@ c).
 Proof. induction a as [|ch a IH]; intros; simpl; [reflexivity | rewrite IH; reflexivity]. Qed.
 
+Lemma num_start_spec : forall s, num_start s = starts_numeric s.
+Proof.
+  intros [|c s]; [reflexivity|].
+  destruct c as [[] [] [] [] [] [] [] []]; reflexivity.
+Qed.
+
+Lemma attr_obj_primary : forall s, attr_obj s = primary s.
+Proof. intros. unfold attr_obj, primary. rewrite num_start_spec. reflexivity. Qed.
+
 Lemma join_commas : forall l, join ", " l = commas l.
 Proof.
   induction l as [|x r IH]; simpl; auto.
@@ -180,7 +189,7 @@ Proof.
   - (* name *) intros; reflexivity.
   - intros; reflexivity.
   - (* attr *) intros e a IH fuel rest st. simpl compile_expr. rewrite <- app_assoc, plus_assoc_len, IH.
-    simpl. destruct (sup_expr v e); reflexivity.
+    simpl. rewrite attr_obj_primary. destruct (sup_expr v e); reflexivity.
   - (* subscr *) intros e i IHe IHi fuel rest st. simpl compile_expr.
     rewrite <- !app_assoc, plus_assoc_len, IHe. simpl sup_expr.
     destruct (sup_expr v e); simpl; [|reflexivity].
@@ -207,7 +216,7 @@ Proof.
     rewrite plus_assoc_len, (exprs_rw v args IHargs).
     destruct (forallb (sup_expr v) args); [|reflexivity].
     rewrite <- (map_length render_expr args). unfold rexprs.
-    rewrite nt_call_suffix. rewrite !sapp_assoc. reflexivity.
+    rewrite nt_call_suffix. rewrite attr_obj_primary. rewrite !sapp_assoc. reflexivity.
   - (* EOp *) intros tag subs IH fuel rest st. simpl compile_expr.
     rewrite <- app_assoc, plus_assoc_len, (exprs_rw v subs IH).
     simpl. destruct (forallb (sup_expr v) subs); reflexivity.
@@ -298,7 +307,7 @@ Proof.
   - (* attr *) intros e a fuel rest Hf. simpl in Hf. rewrite app_length in Hf. simpl in Hf.
     simpl compile_target. rewrite <- app_assoc. rewrite straight_expr by lia. simpl sup_target.
     destruct (sup_expr v e); [|reflexivity].
-    destruct (fuel - List.length (compile_expr v e)) eqn:E; [lia|]. reflexivity.
+    destruct (fuel - List.length (compile_expr v e)) eqn:E; [lia|]. simpl. rewrite attr_obj_primary. reflexivity.
   - (* subscr *) intros e i fuel rest Hf. simpl in Hf. rewrite !app_length in Hf. simpl in Hf.
     simpl compile_target. rewrite <- !app_assoc. rewrite straight_expr by lia. simpl sup_target.
     destruct (sup_expr v e); simpl; [|reflexivity].
